@@ -7,7 +7,13 @@ import socksio
 
 from .._backends.auto import AutoBackend
 from .._backends.base import AsyncNetworkBackend, AsyncNetworkStream
-from .._exceptions import ConnectionNotAvailable, ProxyError
+from .._exceptions import (
+    ConnectionNotAvailable,
+    ExceptionMapping,
+    ProxyError,
+    RemoteProtocolError,
+    map_exceptions,
+)
 from .._models import URL, Origin, Request, Response, enforce_bytes, enforce_url
 from .._ssl import default_ssl_context
 from .._synchronization import AsyncLock, AsyncShieldCancellation
@@ -39,6 +45,11 @@ REPLY_CODES = {
 }
 
 
+# A reply that cannot be parsed (malformed, truncated, or the proxy closing the
+# connection in the middle of the negotiation) is a protocol error of the peer.
+SOCKS_EXC_MAP: ExceptionMapping = {socksio.ProtocolError: RemoteProtocolError}
+
+
 async def _init_socks5_connection(
     stream: AsyncNetworkStream,
     *,
@@ -61,7 +72,8 @@ async def _init_socks5_connection(
 
     # Auth method response
     incoming_bytes = await stream.read(max_bytes=4096, timeout=timeout)
-    response = conn.receive_data(incoming_bytes)
+    with map_exceptions(SOCKS_EXC_MAP):
+        response = conn.receive_data(incoming_bytes)
     assert isinstance(response, socksio.socks5.SOCKS5AuthReply)
     if response.method != auth_method:
         requested = AUTH_METHODS.get(auth_method, "UNKNOWN")
@@ -80,7 +92,8 @@ async def _init_socks5_connection(
 
         # Username/password response
         incoming_bytes = await stream.read(max_bytes=4096, timeout=timeout)
-        response = conn.receive_data(incoming_bytes)
+        with map_exceptions(SOCKS_EXC_MAP):
+            response = conn.receive_data(incoming_bytes)
         assert isinstance(response, socksio.socks5.SOCKS5UsernamePasswordReply)
         if not response.success:
             raise ProxyError("Invalid username/password")
@@ -96,7 +109,8 @@ async def _init_socks5_connection(
 
     # Connect response
     incoming_bytes = await stream.read(max_bytes=4096, timeout=timeout)
-    response = conn.receive_data(incoming_bytes)
+    with map_exceptions(SOCKS_EXC_MAP):
+        response = conn.receive_data(incoming_bytes)
     assert isinstance(response, socksio.socks5.SOCKS5Reply)
     if response.reply_code != socksio.socks5.SOCKS5ReplyCode.SUCCEEDED:
         reply_code = REPLY_CODES.get(response.reply_code, "UNKOWN")
